@@ -80,6 +80,40 @@ def r13_2(ctx):
     ctx.ob("R13.2", "eat-is-scan-then-commit", bad is None, bad or "every path that answers None / Some(false) leaves the queue untouched; mutation happens only on the matched path")
 
 
+def r13_7(ctx):
+    """pop_except_from: FromSet(c) is answered only when the front buffer starts with a set member (the non-member prefix is
+    EMPTY); any non-empty prefix - a single character included - is answered as the run NotFromSet(prefix), the whole prefix and
+    nothing more"""
+    key, pcs = nfq.cells(ctx, AREA, BQ + "pop_except_from")
+    bad = None
+    seen = set()
+    for pc in nfq.feasible(pcs):
+        ret = str(pc["ret"])
+        pre = [(l, r, v) for l, op, r, v, g in comparisons(pc["guards"]) if op == "<" and "nonmember_prefix_len(" in r and re.fullmatch(r"\d+", l)]
+        eq0 = [v for k, v in pc["guards"].items() if re.search(r"nonmember_prefix_len\(.*\) matches 0(#\d+)?$", k)]
+        if "FromSet(" not in ret:
+            continue
+        run = "NotFromSet(" in ret
+        if not pre and not eq0:
+            bad = "a %s answer is given without the length of the non-member prefix having been tested" % ("run" if run else "FromSet")
+            continue
+        nonempty = (pre and pre[-1][2] and int(pre[-1][0]) >= 0) or (eq0 and eq0[-1] is False)
+        bound = int(pre[-1][0]) if pre else 0
+        if bound != 0:
+            bad = "the run branch is taken only for a prefix longer than %d: a prefix of %d non-member character(s) is answered as FromSet(c) with a c that is NOT in the set (the tokenizer then treats an ordinary character as one of its special ones)" % (bound, bound)
+        if run:
+            seen.add("run")
+            if not nonempty:
+                bad = "a run is answered for an empty prefix"
+            if not re.search(r"unsafe_subtendril\(0,p1\.nonmember_prefix_len\(", ret) and not any(a.endswith("unsafe_subtendril") and tuple(str(x) for x in args)[0] == "0" for a, args in pc["actions"]):
+                bad = "the run is not the prefix [0, nonmember_prefix_len) of the front buffer"
+        else:
+            seen.add("member")
+            if nonempty:
+                bad = "FromSet is answered although the non-member prefix is not empty"
+    ctx.ob("R13.7", "pop_except_from-run-iff-prefix-non-empty", bad is None and seen == {"run", "member"}, bad or "prefix empty -> FromSet(first char); otherwise NotFromSet(whole prefix)", "markup5ever BufferQueue::pop_except_from")
+
+
 def r13_6(ctx):
     """push_front / push_back put the whole text in as ONE new buffer at that end and touch nothing else (no merging into a
     neighbour - a merge into the first buffer puts the text behind that buffer's unread characters); eat()'s commit removes the
@@ -157,6 +191,8 @@ def run(ctx):
     ctx.rule("R13.5", "the boundary validators BufferQueue::eat relies on when it pops the matched prefix (UTF8::validate_prefix / validate_suffix) test the code point at the boundary (shared with R11.8)")
     from .C11 import utf8_boundary_validators
     ctx.guard("R13.5", "boundary", lambda: utf8_boundary_validators(ctx, "R13.5"))
+    ctx.rule("R13.7", "pop_except_from answers FromSet only for an empty non-member prefix, otherwise the whole prefix as a run")
+    ctx.guard("R13.7", "run-iff-non-empty", lambda: r13_7(ctx))
     ctx.rule("R13.6", "push_front / push_back add exactly one buffer at their end; eat() commits by dropping exhausted buffers from the front")
     ctx.guard("R13.6", "push-and-commit", lambda: r13_6(ctx))
     ctx.rule("R13.1", "no empty buffer is stored: pushes on the false edge of len32()==0; every shrink of the front buffer is followed by an emptiness test that pops it")
